@@ -131,8 +131,65 @@ def check(tier, seed):
                        extra=dict(values=n), assumptions=['independent comparator mc/cats.py::key'])
 
 
+def rebuild_from_text(text):
+    """build the value from its canonical text without Category.parse (the parser may be what is broken)"""
+    import re
+    toks = [t for t in re.split(r'([()/\\|])', text) if t]
+    pos = [0]
+
+    def atom(tok):
+        m = re.match(r'^([^\[]+)(?:\[(.*)\])?$', tok)
+        base, f = m.group(1), m.group(2)
+        if f is None:
+            return K.Atom(base)
+        if '=' in f and ',' in f:
+            return K.Atom(base, K.TernaryFeature(*[tuple(kv.split('=')) for kv in f.split(',')]))
+        return K.Atom(base, K.UnaryFeature(f))
+
+    def operand():
+        if toks[pos[0]] == '(':
+            pos[0] += 1
+            x = expr()
+            pos[0] += 1
+            return x
+        x = atom(toks[pos[0]])
+        pos[0] += 1
+        return x
+
+    def expr():
+        left = operand()
+        if pos[0] < len(toks) and toks[pos[0]] in '/\\|':
+            sl = toks[pos[0]]
+            pos[0] += 1
+            return K.Functor(left, sl, operand())
+        return left
+    return expr()
+
+
 def replay(rec):
-    a = K.P(rec['a']) if rec.get('a') else None
-    print('a =', a, '| b =', rec.get('b'), '|', rec['what'])
-    st = core.Stats()
-    return 1
+    a = rebuild_from_text(rec['a']) if rec.get('a') else None
+    b = rec.get('b')
+    print(rec['key'], '|', rec['what'])
+    key = rec['key'].split('/')[0]
+    bad = False
+    if key in ('eq', 'ne', 'hash', 'xor', 'streq') and isinstance(b, str) and b:
+        bv = rebuild_from_text(b)
+        same = K.key(a) == K.key(bv)
+        obs = dict(eq=(a == bv), ne=(a != bv), hash_equal=(hash(a) == hash(bv)), xor=bool(a ^ bv), streq=(a == b))
+        exp = dict(eq=same, ne=not same, hash_equal=True if same else None, xor=K.skel(a) == K.skel(bv), streq=K.text(a) == b)
+        print('observed', obs, 'expected', exp)
+        bad = any(exp[k] is not None and obs[k] != exp[k] for k in obs)
+    elif key == 'clear':
+        F = tuple(b)
+        got = a.clear_features(*F)
+        print('clear_features', F, '->', got)
+        def expf(x):
+            if isinstance(x, K.Functor):
+                return ('F', expf(x.left), x.slash, expf(x.right))
+            return ('A', x.base, ('U', None)) if K.feat_text(x.feature) in F else K.key(x)
+        bad = K.key(got) != expf(a) or K.key(got.clear_features(*F)) != K.key(got)
+    else:
+        st = unary_laws('quick')
+        bad = bool(st.viol)
+    print('REPRODUCED' if bad else 'not reproduced')
+    return 1 if bad else 0
